@@ -528,6 +528,11 @@ func (u *Upstream) withAckTimeoutCh(ctx context.Context, inCh <-chan *message.Up
 		defer cancel()
 		select {
 		case <-timeoutCtx.Done():
+			if ctx.Err() != nil {
+				// the run was cancelled (disconnect or close), the ack did not time out: the chunk must stay in the
+				// sent storage so that it is retransmitted after the stream has been resumed
+				return
+			}
 			select {
 			case <-ctx.Done():
 			case <-u.ctx.Done():
